@@ -105,7 +105,7 @@ PROPS["C10"] = {
     "level": "proof",
     "assumptions": SCAN_ASSUME + ["only the structural part is decided: the four input-section counts partition the input list and explicit_outs <= #outs (every subtraction in read_build is a discharged underflow obligation); which token lands in which section and escape rendering are NOT under contract; unit load: add_build maps the parsed counts one-to-one onto BuildIns/BuildOuts, the k-th input/output id names canon(eval(k-th parsed path)) in order, and cmdline/desc/depfile/pool/hide_success are the attributes `command`/`description`/`depfile`/`pool`/`hide_success` (in-body assertions before Graph::add_build; rspfile, deps and hide_progress are not asserted)",
         "graph::Build's slice accessors (explicit/dirtying/ordering/validation) are proved in unit graph/sched (tagged C10)",
-        "NOT decided (found by the mutation sweep, DESIGN 10.9): the mapping `deps = msvc` -> parse_showincludes (Verus gives string-literal match patterns no link to the string's content); that the spaces following a `$`-newline continuation are skipped (Scanner::skip_spaces is specified for bounds and termination only)"],
+        "NOT decided (found by the mutation sweep, DESIGN 10.9): the mapping `deps = msvc` -> parse_showincludes (Verus gives string-literal match patterns no link to the string's content)"],
 }
 DB_ASSUME = [
     "io model (trusted): Write::write_all appends all bytes or, on error/crash, a prefix; Read::read_exact fails only with UnexpectedEof and exactly when fewer bytes remain (no other I/O errors while loading); BufReader::stream_position reports the bytes consumed",
